@@ -236,9 +236,21 @@ func lockstep(idx int64, m mk, ops []op) (changes int) {
 			inst.Get()
 		case "add":
 			before := inst.Get()
+			if m.kind == "percentile" && i%5 == 3 && before > 0 {
+				o.V = before // a sample exactly equal to the current estimate: neither above nor below it
+				rt.Count("percentile_samples_equal_to_the_estimate", 1)
+			}
 			ret, flag := inst.Add(o.V)
 			after := inst.Get()
 			rt.Count("adds", 1)
+			if m.kind == "percentile" && !dirty && len(sinceReset) > 0 {
+				// a moving percentile steps towards what it is shown: up for a sample above it, down for one below, not at all
+				// for a sample equal to it
+				if (o.V > before && after < before) || (o.V < before && after > before) || (o.V == before && after != before) {
+					viol("estimate-moved-away-from-the-sample", i, rt.J{"before": before, "sample": o.V, "after": after})
+				}
+				rt.Count("percentile_direction_checks", 1)
+			}
 			if math.IsNaN(after) || math.IsInf(after, 0) || math.IsNaN(ret) || math.IsInf(ret, 0) {
 				viol("non-finite", i, rt.J{"get": fmt.Sprint(after), "ret": fmt.Sprint(ret)})
 			}
